@@ -6,7 +6,8 @@ under /verif/seeded/<Cxx>-<mN>/ (patch.diff, demo.rs, notes.md, meta.json)."""
 import json, os, re, shutil, subprocess, sys
 prop, m = sys.argv[1], sys.argv[2]
 extra = sys.argv[3:]
-src = "/tmp/mut/out-%s/%s" % (prop, m)
+src = (os.environ.get("SEED_ROOT") + "/%s/%s" % (prop, m)) if os.environ.get("SEED_ROOT") else "/tmp/mut/out-%s/%s" % (prop, m)
+SUFFIX = os.environ.get("SEED_SUFFIX", "")
 WT = "/tmp/mut/wt-confirm"
 ENV = dict(os.environ, CARGO_NET_OFFLINE="true", CARGO_TARGET_DIR="/tmp/mut/target-confirm")
 def sh(cmd, cwd=None):
@@ -35,7 +36,7 @@ def run_demo():
     os.remove(os.path.join(WT, "tests/demo_seed.rs"))
     res = re.findall(r"test result: (\w+)\. (\d+) passed; (\d+) failed", out)
     return rc, res, out[-600:]
-meta = dict(property=prop, id="%s-%s" % (prop, m), source="independent sub-agent given only the property text and a scratch worktree", demo_features=feats)
+meta = dict(property=prop, id="%s-%s%s" % (prop, m, SUFFIX), source="independent sub-agent given only the property text and a scratch worktree", demo_features=feats)
 rc, out = sh("git -C %s apply --whitespace=nowarn %s" % (WT, patch))
 if rc != 0:
     print("patch does not apply", out); sys.exit(2)
@@ -64,7 +65,7 @@ meta["commands"] = ["git apply patch.diff (scratch worktree)", "cargo check --of
                     "git -C /repo apply patch.diff; ./check run %s --tier quick; git -C /repo checkout -- ." % " / ".join(checks)]
 print(json.dumps(meta, indent=1))
 if ok:
-    dst = "/verif/seeded/%s-%s" % (prop, m)
+    dst = "/verif/seeded/%s-%s%s" % (prop, m, SUFFIX)
     os.makedirs(dst, exist_ok=True)
     shutil.copy(patch, dst + "/patch.diff")
     shutil.copy(os.path.join(src, "demo.rs"), dst + "/demo.rs")
